@@ -267,6 +267,29 @@ def debug_selection_config(rng):
     return cfg
 
 
+def reconf_config(rng):
+    """A configuration reload (dict / JSON / YAML) that names several nodes, changes the priority of some of them so that the
+    order of ready nodes flips, and leaves the priority of others - in particular of the LAST entry - as it was (only
+    is_sequential is restated): the schedule must follow the reloaded table whichever entries changed (C06 / C07 / C05)."""
+    while True:
+        cfg = random_config(rng, 3, 5)
+        if cfg["fn"] == list(range(1, cfg["n"] + 1)) and not any(cfg["setup"]) and not any(cfg["debug"]) and cfg["ops"] == ["call"]:
+            break
+    n = cfg["n"]
+    cfg["mc"] = rng.choice([1, 1, 2])
+    cfg["bad"] = []
+    k = rng.randint(2, n)
+    named_nodes = sorted(rng.sample(range(n), k))
+    changed = set(rng.sample(named_nodes[:-1], rng.randint(1, len(named_nodes) - 1))) if rng.random() < 0.7 else set(named_nodes)
+    prio2 = list(cfg["prio"])
+    for j in changed:
+        prio2[j] = rng.choice([v for v in (-5, 11, 12, 13) if v != cfg["prio"][j]])
+    cfg["reconf"] = {"prio": prio2, "seq": list(cfg["seq"]), "named": [j in named_nodes for j in range(n)],
+                     "via": rng.choice(["dict", "json", "yaml"]), "mc": None}
+    cfg["cid"] = cfg_key(cfg)
+    return cfg
+
+
 def seq_defer_config(rng):
     """A sequential node that becomes the best ready candidate while two or three pooled nodes are in flight, one of which
     releases a successor (that may outrank the sequential node) when it finishes: what happens next depends on the order of
